@@ -1372,6 +1372,9 @@ func (st *Runtime) evaluateArgs(fnType reflect.Type, args CallArgs, pipedArg *re
 			return nil, fmt.Errorf("piped first argument for %s is not a valid value", fnType)
 		}
 		if !(*pipedArg).Type().AssignableTo(in) {
+			if !(*pipedArg).Type().ConvertibleTo(in) {
+				return nil, fmt.Errorf("piped first argument for %s has type %s, which can't be converted to %s", fnType, (*pipedArg).Type(), in)
+			}
 			*pipedArg = (*pipedArg).Convert(in)
 		}
 		argValues[slot] = *pipedArg
@@ -1395,6 +1398,9 @@ func (st *Runtime) evaluateArgs(fnType reflect.Type, args CallArgs, pipedArg *re
 			return nil, fmt.Errorf("argument for position %d in %s is not a valid value", slot, fnType)
 		}
 		if !term.Type().AssignableTo(in) {
+			if !term.Type().ConvertibleTo(in) {
+				return nil, fmt.Errorf("argument for position %d in %s has type %s, which can't be converted to %s", slot, fnType, term.Type(), in)
+			}
 			term = term.Convert(in)
 		}
 		argValues[slot] = term
@@ -1418,6 +1424,9 @@ func (st *Runtime) evaluateArgs(fnType reflect.Type, args CallArgs, pipedArg *re
 				return nil, fmt.Errorf("argument for position %d in %s is not a valid value", slot, fnType)
 			}
 			if !term.Type().AssignableTo(in) {
+				if !term.Type().ConvertibleTo(in) {
+					return nil, fmt.Errorf("argument for position %d in %s has type %s, which can't be converted to %s", slot, fnType, term.Type(), in)
+				}
 				term = term.Convert(in)
 			}
 			argValues[slot] = term
